@@ -8,4 +8,5 @@ pub mod cfgs;
 pub mod oracle;
 pub mod subs;
 pub mod exec;
+pub mod hist;
 pub mod threads;
